@@ -564,4 +564,5 @@ SELFTESTS = [
     (rule_gzip_only, ["c10_bad.cc"], ["c10_good.cc"], "default"),
     (rule_zlib_census, ["c10_bad.cc"], ["c10_good.cc"], "inflateValidate"),
     (rule_all_members, ["c10_bad.cc"], ["c10_good.cc"], "members"),
+    (rule_read_length, ["c10_read_bad.cc"], ["c10_read_good.cc"], "resize#1"),
 ]
